@@ -140,6 +140,8 @@ Fixpoint ks_zero (cnt i n oldN : nat) (k : list Z) (ob : nat) : list Z * nat :=
   end.
 
 Definition hadd (s : state) (h : hyb) (p : particle) (newd : Z) : state * hyb :=
+  if add_refused s p then (add_slot_only s p, h)       (* reb_simulation_add_local returns before any bookkeeping *)
+  else
   let s1 := add s p in
   let n := sN s1 in
   let h1 :=
@@ -230,9 +232,11 @@ Definition hdiag (c : hcase) :=
    N--; particles[oldpos] = particles[N]; reb_simulation_reinsert_particle(r, reinsertme)  -- the particle goes
    to the end of the array through the storing half of reb_simulation_add_local only (since 794b7d9); the
    MERCURIUS / TRACE bookkeeping for new particles does not run. *)
-Definition tree_reinsert (s : state) (h : hyb) (oldpos : nat) : state * hyb :=
+Definition reinsert_mid (s : state) (oldpos : nat) : state :=
   let n1 := sN s - 1 in
-  let pt := nth oldpos (mem s) pzero in
-  let s1 := mkS (tcfg s) (upd (mem s) oldpos (nth n1 (mem s) pzero)) n1 (sNact s) (sNvar s) (tab s) (nlook s) (tree s)
-                (oob s + chk (length (mem s)) oldpos + chk (length (mem s)) n1 + chk (length (mem s)) oldpos) in
-  (add s1 pt, h).
+  mkS (tcfg s) (upd (mem s) oldpos (nth n1 (mem s) pzero)) n1 (sNact s) (sNvar s) (tab s) (nlook s) (tree s)
+      (oob s + chk (length (mem s)) oldpos + chk (length (mem s)) n1 + chk (length (mem s)) oldpos).
+(* the storing half of reb_simulation_add_local may refuse the particle (it now coincides with another one):
+   then it is dropped with an error message *)
+Definition tree_reinsert (s : state) (h : hyb) (oldpos : nat) : state * hyb :=
+  (fst (add_op (reinsert_mid s oldpos) (nth oldpos (mem s) pzero)), h).
